@@ -15,6 +15,13 @@ import MindsVerif.Gen.RenderPaths
 * `to_string()` path: `Constant.get_string` against the library's own MindsDB lexer: `C07_tostring_partial`
   (values in which every backslash is followed by a character other than `\ ' "`): the token ends exactly
   at the end of the printed literal; false in general: `C07_witness_tostring`.
+* [review] doc fix: the previous bullet describes the printer BEFORE /repo 2843e02 (history).  For the live code the
+  `to_string()` theorem is `C07_tostring_codec` (all strings, library reader).
+* [review] NOT covered by any theorem or stream of C07: the DEFAULT `SqlalchemyRender.get_string(ast)`
+  (`with_failback=True`) returns `str(ast)` — the `to_string()` text, library codec `\'` — for ANY dialect whenever
+  rendering raises `SQLAlchemyError` / `NotImplementedError` (e.g. a 4-part table name).  A standard-SQL target does
+  not read that codec: see `C07_review_fallback_witness` (checked on sqlite3: `SELECT '\' , 1 -- ' FROM a.b.c.d`
+  returns the two columns `\` and `1`).  The check calls `get_string(..., with_failback=False)` only.
 -/
 namespace MindsVerif.Props.C07
 open MindsVerif MindsVerif.Py MindsVerif.Lex MindsVerif.Denote MindsVerif.Literal MindsVerif.LitRender MindsVerif.Gen
@@ -70,6 +77,26 @@ dialect) reads the printed literal back as exactly the value and stops exactly b
 theorem C07_tostring_codec (v rest : List Char) (hr : rest.head? ≠ some '\'') :
     Codec.readString (Codec.constantToString v ++ rest) = some (v, rest) :=
   Codec.roundtrip v rest hr
+
+-- [review] the cross pairing that the fallback path of `SqlalchemyRender.get_string` produces (library printer, read by
+-- a standard-SQL engine) does NOT satisfy the full statement: the value `' , 1 -- ` is printed `'\' , 1 -- '`, which a
+-- standard-SQL reader ends after the backslash — the rest is read as SQL.  (Model-level witness; the Python path
+-- `SqlalchemyRender('sqlite').get_string(Select(targets=[Constant("' , 1 -- ")], from_table=Identifier('a.b.c.d')))`
+-- was run on sqlite3 by the reviewer.)
+def fbAttack : List Char := "' , 1 -- ".toList
+
+theorem C07_review_fallback_witness :
+    Codec.constantToString fbAttack = "'\\' , 1 -- '".toList ∧
+    stdLex (Codec.constantToString fbAttack) = some (['\\'], " , 1 -- '".toList) ∧
+    ¬ C07_full Codec.constantToString stdLex := by
+  refine ⟨by decide, by decide, ?_⟩
+  intro h
+  have := h fbAttack [] (by decide)
+  revert this; decide
+
+-- [review] non-vacuity of `C07_tostring_codec` and `C07_mysql` on the attack value, followed by statement text
+example : Codec.readString (Codec.constantToString attack ++ [';']) = some (attack, [';']) := by decide
+example : mysqlLex (renderLiteral true attack ++ [')']) = some (attack, [')']) := by decide
 
 /-- regression example (fixed: 2843e02): with the old printer the same value ended the literal early -/
 theorem C07_witness_tostring :
